@@ -1137,6 +1137,7 @@ def run_conn(ctx):
             return
     ndis = nor = 0
     by_case = collections.defaultdict(list)
+    one_ok = {}
     LONE_CR = ("outcome depends on TCP segmentation: the CRLF of an empty line before a keep-alive request, cut "
                "between CR and LF, is answered 400 + close (uncut or cut elsewhere: skipped)")
     for job, ob in zip(jobs, obs):
@@ -1161,7 +1162,9 @@ def run_conn(ctx):
             ctx.dist["conn:skipped-ipv6-literal-host"] += 1
             continue
         d = conn_compare(confs[ci], items, phase, ob)
-        if d and lone:
+        if len(segs) == 1:
+            one_ok[k] = d is None
+        if d and lone and one_ok.get(k):     # (the uncut stream of a case is always its first job)
             nor += 1
             ctx.violation("oracle:e2e-conn:segmentation:lone-CR-before-keep-alive-request", LONE_CR,
                           dict(rep, kind="property-oracle", oracle_verdict=LONE_CR, detail=d), found=True)
